@@ -165,7 +165,10 @@ example : Blk.ok (.ifc [49, 32, 62, 32, 48] [.var [120]]) ∧ Blk.pathOk (.ifc [
 
 /-- stage 5 of `RenderParsePrint`: block TREES.  `BTs` = sequences of segment runs (stage 3) and
 `<if case="e">…<elseif case="e2" />…<else />…</if>` chains of any length whose bodies are again
-block trees (any nesting depth).  Case texts free of `{ < } "`; `caseOk`: every case text of a
+block trees (any nesting depth).  Case texts are ANY text free of `"`: literals, operators,
+parentheses and `{var:path}` operands (`varsOk`: the paths of the operands the scanner finds have
+the documented shape; the values are whatever the document holds — numbers, strings, booleans,
+null, containers, nothing).  `caseOk`: every case text of a
 chain with more than one branch scans to a non-empty list (for a non-expression the code prints
 nothing / treats a later empty case as `else`, see the observations in notes/design-tmpl.md).
 For every value, number reader, formatter and escape switch: parse + render = the documented
@@ -190,6 +193,29 @@ theorem render_parse_print_tree {R : Type} [RealLike R] (cx : RCtx R) (sx : Spec
   rw [show rneedBTs bs + rcostBTs bs + fuel = (rneedBTs bs + fuel) + rcostBTs bs by omega,
     renderTop_tree cx cfg hg hrn bs hc hok hpath hcase _ (by omega), expand, same.eq,
     expand_bts cx bs _ (by omega)]
+
+/-- non-vacuity of the tree class with a `{var:}` operand:
+`<if case="{var:x} == 1">a<else />b</if>` -/
+def caseX : List Nat := [123, 118, 97, 114, 58, 120, 125, 32, 61, 61, 32, 49]
+def treeX : BTs := .cons (.ifc caseX (.cons (.segs [.text [97]]) .nil) (.els (.cons (.segs [.text [98]]) .nil))) .nil
+theorem scanX {R : Type} : parseTop ({ readNum := fun _ => none } : ScanCfg R) (caseX ++ [34]) 0 caseX.length =
+    .ok [(.var ⟨5, 1, 0, 0⟩, .equal), (.text 11 1, .noOp)] := by
+  with_unfolding_all rfl
+example {R : Type} : treeX.ok ∧ treeX.pathOk ∧ treeX.caseOk (fun _ => (none : Option (Num R))) := by
+  refine ⟨?_, ?_, ?_⟩
+  · simp only [treeX, BTs.ok, BT.ok, BTail.ok, and_true]
+    refine ⟨by decide, ?_, ?_⟩
+    · intro s hs; simp at hs; subst hs; intro x hx; simp at hx; subst hx; unfold plainU; decide
+    · intro s hs; simp at hs; subst hs; intro x hx; simp at hx; subst hx; unfold plainU; decide
+  · simp [treeX, BTs.pathOk, BT.pathOk, BTail.pathOk, Seg.pathOk]
+  · simp only [treeX, BTs.caseOk, BT.caseOk, BTail.caseOk, and_true]
+    refine ⟨Or.inr ?_, ?_⟩
+    · intro items h; rw [scanX] at h; cases h; simp
+    · intro items h; rw [scanX] at h; cases h
+      intro v hv
+      simp [itemsVars, operandVars] at hv
+      subst hv
+      exact ⟨[120], [], by simp [caseX, brk], by simp, by intro x hx; simp at hx; subst hx; decide, by intro k hk; cases hk⟩
 
 /-- side conditions under which the document determines the output (the generator of
 `checks/c02.py` produces exactly such templates) — informal list kept next to the statement:
